@@ -14,14 +14,14 @@ BUILT = {
   design="DESIGN.md section 5, C01"),
  "C04": dict(
   level="model_checking",
-  text="TLC proves on Crc16.tla the residue lemma, linearity, that every non-zero error pattern of span <= 16 bits at each of the 8 bit alignments (524 280 windows) has a non-zero CRC and that a non-zero register never returns to zero under further bytes - so any burst <= 16 bits changes the residue and the expected verdict is the constant 'error'. Natively, valid files (device, generated, Encode output) are corrupted at every start bit outside byte 0 and bytes 4..7 with structured, seeded and word-clearing patterns (all odd 16-bit patterns for short files in thorough) and Decode and CheckIntegrity must both reject. TLC validates recorded calls: valid files pass CheckIntegrity and Decode, sampled corruptions are rejected, and a header matrix (sizes 12/14 x protocol bytes x data type x stored CRC {0, correct, corrupted} x corrupted covered bytes) gets the same verdict (FitRef!HeaderAt) from DecodeHeader, CheckIntegrity (both modes), Decode and Header.CheckIntegrity.",
+  text="TLC proves on Crc16.tla the residue lemma, linearity, that every non-zero error pattern of span <= 16 bits at each of the 8 bit alignments (524 280 windows) has a non-zero CRC and that a non-zero register never returns to zero under further bytes - so any burst <= 16 bits changes the residue and the expected verdict is the constant 'error'. Natively, valid files (device, generated, Encode output) are corrupted at every start bit outside byte 0 and bytes 4..7 with structured, seeded and word-clearing patterns (all odd 16-bit patterns for short files in thorough) and Decode and CheckIntegrity must both reject. TLC validates recorded calls: valid files pass CheckIntegrity and Decode, sampled corruptions are rejected, and a header matrix (sizes 12/14 x protocol bytes x data type x stored CRC {0, correct, corrupted} x corrupted covered bytes) gets the same verdict (FitRef!HeaderAt) from DecodeHeader, CheckIntegrity (both modes), Decode and Header.CheckIntegrity. HeaderImpl.tla transcribes decodeHeader, Header.CheckIntegrity and Header.MarshalBinary; TLC checks on 5 670 headers that each decides the CRC clause correctly, that they agree, that the residue test equals the comparison, and that MarshalBinary's output is accepted and returned (the repaired defect 3d277e4 as a switch must be refuted); thousands of real calls of the three routines per run are validated against that model (Trace_Header). Valid files are also read through chunked readers on the CheckIntegrity path, and every Encode output (both byte orders) must pass CheckIntegrity and Decode.",
   note="Trusted: TLC, Bitwise module. The burst sweep itself is native enumeration with a TLC-proved constant oracle. Header.CheckIntegrity only for sizes 12 and 14.",
   technique="TLC lemmas on the CRC (burst detection) + native burst sweep against the real code + TLC trace validation of integrity verdicts across the four header-checking APIs",
   design="DESIGN.md section 5, C04"),
  "C05": dict(
   level="model_checking",
   text="The independent parser is the TLA+ reference decoder FitRef, interpreted by TLC: for every recorded Encode call it parses the bytes written (header, data size, both CRCs, definition before data, record length = sum of field sizes, sizes multiples of the base type, the walk ending exactly at the data size) and compares every message on the wire with the projection of the File taken before the call (arrays up to invalid padding and profile length, strings up to profile length - 1, local times by wall clock), then the post-state clause (File.Header.DataSize, File.Header.CRC, File.CRC = values parsed from the output). Files are built by reflection through the public constructors over all 17 file types: random field subsets at three densities, fresh and non-fresh headers (CRC/DataSize left by an earlier call), a second Encode after modifying the File, out-of-domain values (invalid UTF-8, over-long strings/arrays: Encode may refuse, but whatever it writes must parse), both byte orders, headers with and without CRC; thorough adds every hosted message type with every field alone.",
-  note="Trusted: TLC. No exhaustive EncoderImpl model is claimed; binding is by trace validation of real Encode calls.",
+  note="Trusted: TLC. EncoderImpl.tla (transcription of writer.go on activity files with <= 2 records over 4 fields, both byte orders and header sizes: FitRef parses its output back to exactly the File, output is a function of the File; the repaired map-order defect is refuted) is checked exhaustively in every run; binding of the whole encoder is by trace validation of real Encode calls.",
   technique="TLA+ FIT grammar/reference decoder as independent parser + TLC trace validation of recorded Encode calls",
   design="DESIGN.md section 5, C05"),
  "C06": dict(
@@ -32,37 +32,37 @@ BUILT = {
   design="DESIGN.md section 5, C06"),
  "C07": dict(
   level="model_checking",
-  text="For every input that the real Decode accepts (device files, profile-driven generated streams, string streams with unterminated / multi-byte strings, long message groups with late-appearing fields) the chain x -> F0 -> e1 -> F1 -> e2 -> F2 is executed with alternating byte orders; each Decode and Encode call is validated by TLC (decode events against FitRef, encode events against the File encoded), e1 must pass CheckIntegrity, every re-decode must succeed, and F1 = F2 on content. Encode failures are violations unless they match a listed finding.",
+  text="For every input that the real Decode accepts (device files, profile-driven generated streams, string streams with unterminated / multi-byte strings, long message groups with late-appearing fields) the chain x -> F0 -> e1 -> F1 -> e2 -> F2 is executed with alternating byte orders; each Decode and Encode call is validated by TLC (decode events against FitRef, encode events against the File encoded), e1 must pass CheckIntegrity, every re-decode must succeed, and F1 = F2 on content. Encode failures are violations unless they match a listed finding (the UTF-8 finding only covers Files that really hold an invalid string). StringImpl.tla transcribes encodeString: TLC checks it against the string rule (NUL-terminated, longest prefix of whole characters that fits, valid UTF-8 never refused) on every string of <= 4/5 characters of 1-4 bytes x field sizes 1..12/20 and refutes the two defective truncation loops; the whole model domain and thousands of longer strings go through the real function (hook VerifEncodeString) and are validated by TLC (Trace_String).",
   note="Trusted: TLC. Known finding: decoded strings that are not valid UTF-8 cannot be re-encoded. Messages that no container holds, unknown and developer fields are not File content.",
   technique="TLA+ reference decoder + TLC trace validation of two re-encode generations per accepted input",
   design="DESIGN.md section 5, C07"),
  "C08": dict(
   level="model_checking",
-  text="ApiImpl.tla models the process: calls over a pool, a process-wide accumulator read and written by accumulating records. TLC checks ResultsPure (every call returns Pure(input)) for all call histories up to length 3/4 over three abstract inputs for per-call accumulators, and finds the counterexample Decode(A); Decode(A) for the design as implemented. The histories TLC enumerates, every ordered pair of pool calls and seeded random histories (Decode / DecodeChained / Encode over device files, component streams, files starting with compressed headers or local times, chains, Files with over-long strings) are replayed against the real library, each in its own fresh child process; Pure is tabulated by executing each call first in a fresh process; TLC (Trace_Api) compares every recorded result with the table. Encode is repeated 20x per File inside a call (identical bytes required).",
+  text="ApiImpl.tla models the process: calls over a pool, a process-wide accumulator read and written by accumulating records. TLC checks ResultsPure (every call returns Pure(input)) for all call histories up to length 3/4 over three abstract inputs for per-call accumulators, and finds the counterexample Decode(A); Decode(A) for the design as implemented. The histories TLC enumerates, every ordered pair of pool calls and seeded random histories (Decode / DecodeChained / Encode over device files, component streams, files starting with compressed headers or local times, chains, Files with over-long strings) are replayed against the real library, each in its own fresh child process; Pure is tabulated by executing each call first in a fresh process; TLC (Trace_Api) compares every recorded result with the table. Encode is repeated 20x per File inside a call (identical bytes required). The pool also holds inputs differing only in the size a definition declares, Files differing only in the length of their strings, an Encode that fails, and the decode options are values created once per process.",
   note="Trusted: TLC; digests (sha256 of the full projection / of the bytes written). Known finding: record.distance continues across Decode calls (package-level accumulator).",
   technique="TLA+ process model (ApiImpl) checked by TLC + replay of TLC-enumerated and random call histories in fresh processes + TLC trace validation against fresh-process results",
   design="DESIGN.md section 5, C08"),
  "C09": dict(
   level="model_checking",
-  text="ApiImpl.tla with two goroutines: TLC explores every interleaving of record-granularity steps with Load and Store of the process-wide accumulator as separate steps; NoRace and ResultsPure hold for per-call state and fail for the design as implemented. Every schedule TLC enumerates is forced on real goroutines through the public interface (a gated reader hands out exactly one record per Read and blocks until the schedule releases that goroutine), results compared with the sequential ones. Data-race freedom is decided by the Go race detector on a -race build: 8 free-running goroutines over the pool (Decode, DecodeChained, CheckIntegrity, Encode) started together in a fresh process, once over inputs without accumulated fields (must be clean and equal to the alone-results) and once over the whole pool; race reports and results are validated by TLC (Trace_Api: NoRace, result = Pure).",
+  text="ApiImpl.tla with two goroutines: TLC explores every interleaving of record-granularity steps with Load and Store of the process-wide accumulator as separate steps; NoRace and ResultsPure hold for per-call state and fail for the design as implemented. Every schedule TLC enumerates is forced on real goroutines through the public interface (a gated reader hands out exactly one record per Read and blocks until the schedule releases that goroutine), results compared with the sequential ones. Data-race freedom is decided by the Go race detector on a -race build: 8 free-running goroutines over the pool (Decode, DecodeChained, CheckIntegrity, Encode) started together in a fresh process, once over inputs without accumulated fields (must be clean and equal to the alone-results) and once over the whole pool; and once per entry point over the clean pool (calls of one kind overlap); every other goroutine passes a logger; the pool holds files larger than 4 / 32 / 64 KiB; a panic inside a concurrent call counts as a result that differs from the call made alone; race reports and results are validated by TLC (Trace_Api: NoRace, result = Pure).",
   note="Trusted: TLC, the Go race detector (its reports are observed facts in the trace). Known findings: race and interleaving-dependent record.distance on the package-level accumulators.",
   technique="TLA+ process model with 2 goroutines (TLC, all interleavings) + deterministic schedule replay through gated readers + race-detector stress validated against the Api contract",
   design="DESIGN.md section 5, C09"),
  "C10": dict(
   level="model_checking",
   text="FrameImpl.tla transcribes the decoder's reader (binary.Read of the size byte, io.ReadFull of the header, fill with min(buffer, limit - n), readByte/readFull, checkCRC, the DecodeChained loop) against an environment that answers every Read with any 1..req available bytes, EOF or a fault (optionally together with the last bytes). TLC checks NeverPastFrame, SuccessConsumesExactly, CleanEndIsOk, PartialContent and termination for every cut point, every fault point and every chunking of small chains (the state is position/buffered/fetched, so 2^n chunkings collapse to O(n^2) states). Recorded calls of the real code (valid files followed by trailing bytes x 10 chunk scripts x 5 entry points; chains of 2-3 files) are validated by TLC: every Read request ends inside its frame, success consumes header+data+2, every chained file equals the Contract's decode; chained results are also compared with the same bytes decoded alone, and DecodeHeader / DecodeHeaderAndFileID with the Contract's header and file_id.",
-  note="Trusted: TLC. FrameImpl is bound to the code through the Contract-level read discipline on recorded Read sequences, not by step-by-step conformance of the buffer model.",
+  note="Trusted: TLC. FrameImpl is bound to the code through the Contract-level read discipline on all recorded Read sequences, and step by step (Trace_FrameImpl: the recorded Read requests and answers must be a behaviour of FrameImpl) on a sample of <= 60 calls per run; disagreement there is reported as model drift.",
   technique="TLA+ reader model (FrameImpl) exhaustively checked by TLC + TLC trace validation of recorded Read sequences and results",
   design="DESIGN.md section 5, C10"),
  "C11": dict(
   level="model_checking",
   text="FrameImpl (see C10) is checked by TLC for TruncationIsError, FaultIsError, the chain rule (only a clean EOF exactly on a file boundary after >= 1 file ends a chain silently) and PartialContent at every cut and fault offset under every chunking; the same model with the pre-fix chain rule is shown to violate FaultIsError (non-vacuity). Recorded calls of the real code on valid single and chained streams cut or faulted at every offset (short streams) or at header / record-boundary +-1 / buffer-boundary +-1 / CRC offsets plus a seeded sample, in four reader behaviours (EOF, fault, last bytes together with EOF, last bytes together with the fault), through all entry points, are validated by TLC: error required, returned files hold exactly the records complete before the cut.",
-  note="Trusted: TLC. Fault enumeration is complete for streams up to 200 bytes (quick) / 4 KiB (thorough).",
+  note="Trusted: TLC. Fault enumeration is complete for streams up to 200 bytes (quick) / 400 bytes (thorough); longer streams at header, record-boundary, buffer-boundary and CRC offsets plus a seeded sample.",
   technique="TLA+ reader model with EOF/fault at every Read (TLC exhaustive) + fault enumeration on the real code with TLC trace validation",
   design="DESIGN.md section 5, C11"),
  "C15": dict(
   level="model_checking",
-  text="Trace_Tables.tla states ProfileWellFormed; TLC evaluates it over constants exported from the compiled program at every run (verif hook + reflection): every known message has a constructor and a type; field numbers map to distinct struct indices, dense in 0..NumField-1; the Go type of each struct field matches the entry's base type, array flag and time/coordinate kind; the all-invalid constructor leaves every field at its type's invalid value; encoded sizes fit one byte; every file-container member is a known message; no table row for an unknown message; and (message, field number) -> (struct field name, base type, array) agrees with the rows of the newest bundled SDK workbook (21.40), read by the harness itself with the xlsx library. Every hosted (message, field) additionally goes through the real decoder and the real encoder once under recover.",
+  text="Trace_Tables.tla states ProfileWellFormed; TLC evaluates it over constants exported from the compiled program at every run (verif hook + reflection): every known message has a constructor and a type; field numbers map to distinct struct indices, dense in 0..NumField-1; the Go type of each struct field matches the entry's base type, array flag and time/coordinate kind; the all-invalid constructor leaves every field at its type's invalid value; encoded sizes fit one byte; every file-container member is a known message; no table row for an unknown message; and (message, field number) -> (struct field name, base type, array) and the date_time / local_date_time kind agree with the rows of the newest bundled SDK workbook (21.40), read by the harness itself with the xlsx library. Every hosted (message, field) additionally goes through the real decoder and the real encoder once under recover.",
   note="Static evaluation by TLC over all 779 entries (exhaustive). SDK agreement only where the 21.40 workbook has the field (756 of 779); the workbook of the declared version 21.115 is not available offline.",
   technique="TLA+ well-formedness predicate evaluated by TLC over tables exported from the compiled program + SDK workbook cross-check",
   design="DESIGN.md section 5, C15"),
@@ -80,14 +80,14 @@ BUILT = {
   design="DESIGN.md section 5, C19"),
  "C20": dict(
   level="model_checking",
-  text="Trace_Stringer.tla states the lookup rule (name of a constant with that value without the type prefix, else Type(n)); the constant table is extracted from the checked-in types.go with go/types (not from types_string.go). A generated probe program calls String() on every constant of all 176 generated types, their neighbours, all 256 values of 8-bit types, small values and seeded samples of wider types (35 000+ calls); TLC validates every observation. The repository's forked stringer (copied into a scratch module) is run on the checked-in types.go with the type list from the header of types_string.go; byte equality with the checked-in file is a fact validated in the same trace.",
+  text="Trace_Stringer.tla states the lookup rule (name of a constant with that value without the type prefix, else Type(n)); the constant table is extracted from the checked-in types.go with go/types (not from types_string.go). A generated probe program calls String() on every constant of all 176 generated types, their neighbours, all 256 values of 8-bit types, small values and seeded samples of wider types (35 000+ calls); TLC validates every observation. The repository's forked stringer (copied into a scratch module) is run on the checked-in types.go with the type list from the header of types_string.go; byte equality with the checked-in file is a fact validated in the same trace. The hand-written type of types_man.go (Bool) is probed on all 256 values under the same rule.",
   note="A table-lookup property: TLA+ adds an independent statement of the rule. Exhaustive over constants and 8-bit types; wider types sampled.",
   technique="TLA+ lookup rule + TLC validation of every observed String() call + regeneration with the repository's stringer",
   design="DESIGN.md section 5, C20"),
  "C02": dict(
   level="model_checking",
   text="The TLA+ reference decoder FitRef (value semantics FitValues: byte order, sign/zero extension, strings, arrays, times, coordinates, invalid values; three-valued verdicts) is run by TLC over the input of every recorded Decode call (trace validation, one state per protocol unit) and every produced message is compared field by field with what the real decoder returned. Drivers: all device files under testdata, a systematic stream per hosted message covering every field x every compatible definition type (narrower types too) x both byte orders x boundary values with unknown/developer neighbours, large definitions (up to 255 fields / 255 developer fields), and seeded profile-driven random streams.",
-  note="Trusted: TLC; the profile tables are read from the compiled program through the verif export hook (C15 checks them). Only messages held by a file container are observable. Unpinned cases (DESIGN.md 2.4) are not compared. No exhaustive Impl model of parseFitField is claimed here: binding is by trace validation.",
+  note="Trusted: TLC; the profile tables are read from the compiled program through the verif export hook (C15 checks them). Only messages held by a file container are observable. Unpinned cases (DESIGN.md 2.4) are not compared. ValuesImpl.tla (scratch-buffer padding and parseFitField for all 50 profile/definition type pairs x 2 byte orders x boundary byte patterns vs FitValues!ScalarVal; the two repaired defects as switches are refuted) is checked exhaustively in every run.",
   technique="TLA+ reference decoder (FitRef/FitValues) + TLC trace validation of recorded Decode calls (corpus, systematic per-field streams, random streams)",
   design="DESIGN.md section 5, C02"),
  "C03": dict(
@@ -99,12 +99,12 @@ BUILT = {
  "C12": dict(
   level="model_checking",
   text="The Contract's timestamp rules (FitRef!DataAt/FieldStep: epoch + seconds, least t >= reference congruent to the 5-bit offset mod 32, re-basing by field 253, local time = reference instant in a zone of offset local-minus-reference, offset 0 without reference) are evaluated by TLC over recorded Decode calls of timestamp-centred streams: boundary references (around 0x10000000 and 2^32), all 32 offsets, rollovers, long compressed runs, compressed records of messages without timestamp field and of unknown messages, local timestamps with equal/zero/varying offsets, both byte orders; plus device files.",
-  note="Left unconstrained as DESIGN.md C12 states (compressed record before any reference; references below 0x10000000 for local times; state after an unreferenced local time or an unknown message's timestamp). The Impl's masked int32 arithmetic is not separately model-checked yet.",
+  note="Left unconstrained as DESIGN.md C12 states (compressed record before any reference; references below 0x10000000 for local times; state after an unreferenced local time or an unknown message's timestamp). TimestampImpl.tla (the code's update with lastTimeOffset on 32-bit byte tuples vs the least-congruent rule, lockstep over boundary references x 32 offsets; a 4-bit mask is refuted) and TimestampInt.tla (the same over the integers: inductive invariant and the rule as action invariant, discharged by Apalache) are checked in every run; chained timestamp streams check that the reference does not survive into the next file.",
   technique="TLA+ timestamp contract in FitRef + TLC trace validation of timestamp-centred streams",
   design="DESIGN.md section 5, C12"),
  "C13": dict(
   level="model_checking",
-  text="FitRef keeps one definition per local type (defs[l] replaced by a definition record, looked up by data records; compressed headers address 0..3). TLC validates recorded Decode calls of streams over all 16 local types with redefinitions switching message, field list, sizes and byte order between data records of other slots, long-lived slots across >4096 cumulative field definitions, and data records of never-defined local types (must be rejected). Each stream is paired with a control stream in which every data record directly follows its own definition; a disagreement counts against C13 only if the control decodes correctly.",
+  text="FitRef keeps one definition per local type (defs[l] replaced by a definition record, looked up by data records; compressed headers address 0..3). TLC validates recorded Decode calls of streams over all 16 local types with redefinitions switching message, field list, sizes and byte order between data records of other slots, long-lived slots across >4096 cumulative field definitions, and data records of never-defined local types (must be rejected). Each stream is paired with a control stream in which every data record directly follows its own definition; a disagreement counts against C13 only if the control decodes correctly. Independence streams redefine one local type in every shape (no fields, developer fields only, long lists) for messages the file does not hold and are compared with the same stream without that local type. MC_Records: TLC enumerates every record sequence up to depth 3/4 over a 13-token alphabet, checks independent token-level restatements (undefined local type is an error, latest definition wins incl. the timestamp state, order kept) on the reference decoder, and every explored sequence is replayed into the real decoder.",
   note="Trusted: TLC. Streams are seeded random; the 16 slots are all used in every run.",
   technique="TLA+ slot contract in FitRef + TLC trace validation with control streams",
   design="DESIGN.md section 5, C13"),
@@ -116,7 +116,7 @@ BUILT = {
   design="DESIGN.md section 5, C16"),
  "C18": dict(
   level="model_checking",
-  text="FitRef!ApplyEnhance/ExpandRecord/ExpandEvent state the component rules (bit slices, invalid source leaves destinations alone, accumulation of rollover-corrected deltas restarting with every file). TLC validates recorded calls of component-bearing streams in each container that holds such messages (activity, course, activity summary, segment), decoded twice per process and as chains. The four known deviations of the generated code are modelled as named operators (the exact value the current code produces) and reported as KNOWN-FINDING; any other difference is a violation.",
+  text="FitRef!ApplyEnhance/ExpandRecord/ExpandEvent state the component rules (bit slices, invalid source leaves destinations alone, accumulation of rollover-corrected deltas restarting with every file). TLC validates recorded calls of component-bearing streams in each container that holds such messages (activity, course, activity summary, segment), decoded twice per process and as chains. The four known deviations of the generated code are modelled as named operators (the exact value the current code produces) and reported as KNOWN-FINDING; any other difference is a violation. ComponentsImpl.tla transcribes expandComponents / accumu.go with one switch per recorded deviation: TLC proves Impl = Contract with the switches off on every token sequence up to depth 3/4 (16 tokens incl. file boundaries) and refutes each switch alone; every explored sequence is replayed through DecodeChained and compared value for value with the as-implemented model (Trace_Components). AccumulateInt.tla: Apalache discharges the inductive invariant of the accumulator arithmetic for any number of records and refutes it for the mask-zero deviation.",
   note="Trusted: TLC; component table transcribed from the property statement with the profile's field numbers. Known findings listed in /verif/known_findings.json.",
   technique="TLA+ component contract in FitRef + TLC trace validation with named deviations for the recorded findings",
   design="DESIGN.md section 5, C18"),
